@@ -474,7 +474,8 @@ def _announce_reader(prog, folder):
                     v = tuple(sorted(vv)) if isinstance(vv, frozenset) else vv
                     break
             if v is not UNKNOWN:
-                casefold = False
+                # case-insensitive when the comparator folds case, or when the searched text / the phrases are folded first
+                casefold = any(isinstance(x, ast.Attribute) and x.attr in ("casefold", "lower", "upper") for a_ in c.args[:2] for x in ast.walk(a_))
                 for k in c.keywords:
                     roots = [k.value] + [t.node for t in prog.resolve_expr_fn(k.value, k.value) if isinstance(t, FunctionInfo)] if isinstance(k.value, (ast.Name, ast.Attribute)) else [k.value]
                     if any(isinstance(x, ast.Attribute) and x.attr in ("casefold", "lower", "upper") for r_ in roots for x in ast.walk(r_)):
